@@ -1,6 +1,7 @@
 package client
 
 import (
+	"errors"
 	"context"
 	"net"
 
@@ -35,7 +36,10 @@ type zzSession struct {
 	now     *int64
 	onWrite func(w *zzWritten)
 	yield   bool
+	failWrites int // the next n writes fail at the socket (nothing reaches the wire)
 }
+
+var zzErrSocket = errors.New("socket write fails")
 
 func zzNewSession() *zzSession {
 	ctx, cancel := context.WithCancel(context.Background())
@@ -60,6 +64,10 @@ func (s *zzSession) WriteMulticastMessage(req *pool.Message, address *net.UDPAdd
 func (s *zzSession) WriteMessage(req *pool.Message) error {
 	if s.yield {
 		symYield() // the real session marshals and does socket I/O here: other goroutines may run
+	}
+	if s.failWrites > 0 {
+		s.failWrites--
+		return zzErrSocket
 	}
 	w := zzWritten{typ: req.Type(), mid: req.MessageID(), code: req.Code(), token: append([]byte(nil), req.Token()...), nopts: len(req.Options()), cf: -1}
 	if cf, err := req.ContentFormat(); err == nil {
